@@ -177,7 +177,16 @@ def get(names=None, tier="quick", extra_cfgs=()):
     t0 = time.time()
     with ThreadPoolExecutor(max_workers=min(common.NPROC, 12)) as ex:
         paths = list(ex.map(lambda c: build_one(c, root), cfgs))
-    return [Grid(c, p) for c, p in zip(cfgs, paths)]
+    grids = [Grid(c, p) for c, p in zip(cfgs, paths)]
+    # every named corpus member generates on the pinned tree: one that no longer does leaves the property unchecked there, which
+    # Check.finish reports as a broken tie (never silently skipped)
+    for g in grids:
+        if not g.ok and (g.cfg["name"] in CONFIGS or g.cfg.get("must_build")):
+            FAILED[g.cfg["name"]] = (g.error or "").strip().splitlines()[-1][:300] if (g.error or "").strip() else "no output"
+    return grids
+
+
+FAILED = {}
 
 
 if __name__ == "__main__":
